@@ -18,6 +18,18 @@ CLASSES = [
     # a class whose member is a choice that cannot fail, after an alternative that consumes and then fails
     ('Alt', ('class', None, [('v', False, ('choice', ('seq', K, ('str', 'bb')), ('opt', ('ref', 'A1'))))])),
 ]
+# classes present only in the grammars of the start shapes that use them
+EXTRA = [
+    # a list with optional trailer whose separator may fail after consuming ("b" >> "b" on a single b)
+    ('Chain', ('class', None, [('items', False, ('sep', ('ref', 'A1'), ('right', B, B), True, True, False, False))])),
+    # an option that fails late, after a template call with a literal argument and a nested option
+    ('Tm', ('rule', ['x'], ('ref', 'x'))),
+    ('Stmt', ('class', None, [('h', False, ('ref', 'A1')),
+                              ('t', False, ('opt', ('left', ('right', ('call', 'Tm', [B], []), ('opt', ('ref', 'A1'))), ('str', 'bb'))))])),
+    # a repetition of a literal with a predicate written in place (the rejected token must be given back)
+    ('Block', ('class', None, [('ws', False, ('star', ('where', ('re', '[ab]'), ('py', "lambda w: w != 'b'")))),
+                               ('e', False, ('opt', ('str', 'bb')))])),
+]
 STARTS = [
     ('star', ('rule', None, ('star', K)), True),
     ('opt', ('rule', None, ('seq', ('opt', K2), ('star', K))), True),
@@ -35,6 +47,9 @@ STARTS = [
     ('optable-infix', ('rule', None, ('star', ('ref', 'Cmp'))), True),
     ('always-choice', ('rule', None, ('star', ('seq', ('ref', 'Alt'), ('opt', B)))), True),
     ('lookahead-alternative', ('rule', None, ('star', ('seq', ('ref', 'Look'), ('opt', B)))), False),
+    ('sep-half-separator', ('rule', None, ('star', ('seq', ('ref', 'Chain'), ('opt', B)))), True),
+    ('late-failing-option', ('rule', None, ('star', ('seq', ('ref', 'Stmt'), ('opt', B)))), True),
+    ('where-in-place', ('rule', None, ('star', ('seq', ('ref', 'Block'), ('opt', B)))), True),
     # instances held in dict values and tuples built by inline Python
     ('dict-values', ('rule', None, ('apply', ('star', K), ('py', "lambda xs: {'items': xs, 'first': xs[:1], 'n': len(xs)}"))), False),
     ('tuple-values', ('rule', None, ('apply', ('seq', ('opt', K2), ('star', K)), ('py', 'lambda p: (p[0], tuple(p[1]))'))), False),
@@ -116,7 +131,7 @@ def jobs(tier):
         for iname, pats, style, sigma in IGNORES:
             inp = '%s:%d' % (sigma, n)
             sname = 'Start' if sd[0] == 'class' else 'start'
-            rules = [(sname, sd)] + CLASSES
+            rules = [(sname, sd)] + CLASSES + (EXTRA if sn in ('sep-half-separator', 'late-failing-option', 'where-in-place') else [])
             entries = [(None, None)] + [(n, None) for n, d in rules if not d[1]]
             mods = [(tuple(rules), tuple(pats), sname, None, (), False, style, None)]
             yield {'mods': mods, 'inputs': inp, 'mode': 'spans', 'entries': entries, 'positions': 'all', 'fullparse': (True, False),
@@ -125,7 +140,7 @@ def jobs(tier):
 
 def run(tier, seed):
     chk = Check('C10', tier, seed)
-    chk.rule = ('17 start shapes with classes (repeated, optional, nested, abandoned alternatives that built instances, memoised reuse, '
+    chk.rule = ('20 start shapes with classes (a separated list whose separator fails half-way, an option failing after a template call and a nested option, a predicate written in place on a repeated literal, repeated, optional, nested, abandoned alternatives that built instances, memoised reuse, '
                 'parsed inside lookahead, inside an operator table, class template, class as start rule, list fields, Backtrack, a non-associative table inside a class, a choice that cannot fail, instances held in dict values and tuples) x 5 '
                 'ignore configurations x every parameterless rule/class as entry x all inputs over {a,b,space,newline} of length <=5/6 x '
                 'every start offset; oracle: spans recorded by the model (start/end index, line/column) plus nesting / disjointness / '
